@@ -152,7 +152,7 @@ mut("c16-subscribe-wake-before-push", ["C16"], "subscribe/push-then-wake",
     ("src/cqueue.rs", "    fn subscribe(&mut self, co: CoroutineImpl) {\n        self.cqueue.ev_queue.push(Event {", "    fn subscribe(&mut self, co: CoroutineImpl) {\n        let w0 = self.cqueue.to_wake.take();\n        if let Some(w) = w0 {\n            w.unpark();\n        }\n        self.cqueue.ev_queue.push(Event {"))
 mut("c16-sender-drop-count-before-done", ["C16"], "sender-drop/done-then-count",
     ("src/cqueue.rs", "    fn drop(&mut self) {\n        self.cqueue.ev_queue.push(Event {", "    fn drop(&mut self) {\n        self.cqueue.cnt.fetch_sub(1, Ordering::Release);\n        self.cqueue.cnt.fetch_add(1, Ordering::Release);\n        self.cqueue.ev_queue.push(Event {"))
-mut("c17-socket-write-clear-after-syscall", ["C17"], "done/",
+mut("c17-socket-write-clear-after-syscall", ["C17"], "done",
     ("src/io/sys/unix/net/socket_write.rs", "            // clear the io_flag\n            self.io_data.io_flag.store(0, Ordering::Relaxed);\n", ""),
     ("src/io/sys/unix/net/socket_write.rs", "            if self.io_data.io_flag.load(Ordering::Relaxed) != 0 {", "            if self.io_data.io_flag.swap(0, Ordering::Relaxed) != 0 {"))
 mut("c17-udp-recv-subscribe-no-recheck", ["C17"], "subscribe:UdpRecvFrom",
